@@ -1357,6 +1357,18 @@ pub struct RunOut {
 
 /// Execute `prog` under `policy`, taking the explorer's choices from `ctx`.
 pub fn run_program(cfg: &HybCfg, prog: &[HOp], policy: BasePolicy, opts: &RunOpts, ctx: &mut Ctx) -> RunOut {
+    run_program_with(cfg, prog, policy, opts, ctx, &mut |_| {})
+}
+
+/// Like [`run_program`], calling `hook` after every explorer step (monitors).
+pub fn run_program_with(
+    cfg: &HybCfg,
+    prog: &[HOp],
+    policy: BasePolicy,
+    opts: &RunOpts,
+    ctx: &mut Ctx,
+    hook: &mut dyn FnMut(&World),
+) -> RunOut {
     sim::reset();
     let mut w = World::new(cfg.clone());
     let mut trace = vec![];
@@ -1389,6 +1401,7 @@ pub fn run_program(cfg: &HybCfg, prog: &[HOp], policy: BasePolicy, opts: &RunOpt
             trace.push(format!("[{}] {}  (of {})", w.steps, w.describe_action(&acts[c]), acts.len()));
         }
         w.perform(&acts[c], &mut pc, prog);
+        hook(&w);
     }
     if pc < prog.len() && w.stalled.is_none() {
         w.stalled = Some(format!(
